@@ -194,6 +194,57 @@ theorem bulk_skips_nodata (v : VarBind) (post : List VarBind) (it : GetIter) (ac
   rw [getBulkLoop]
   simp [hd]
 
+/-! ## The Python `GetBulkIter` wrapper (`sync_client/getbulk.py`, `async_client/client.py`) -/
+
+/-- **C06.bulkiter_serves_buffer**: once a reply is buffered, successive `next()` calls hand out exactly the rows
+before the stop marker, in order, without calling the socket (the script of socket outcomes is untouched), and
+— when the marker is there — the call after the last row ends the iteration. This is the `drain` the walk
+theorems (`follow_up_bulk`, `stops_at_marker`, `C05.getbulk_walk`) are stated with. -/
+theorem bulkiter_serves_buffer : ∀ (xs : List (Option Py.Item)) (script : List PyOut),
+    Py.bulkRun (drain xs).1.length ⟨xs⟩ script = (drain xs).1.map Py.IterOut.item ∧
+    ((drain xs).2 = true →
+      Py.bulkRun ((drain xs).1.length + 1) ⟨xs⟩ script = (drain xs).1.map Py.IterOut.item ++ [Py.IterOut.stop])
+  | [], script => ⟨rfl, fun h => by simp [drain] at h⟩
+  | none :: rest, script => by
+    refine ⟨rfl, fun _ => ?_⟩
+    simp [drain, Py.bulkRun, Py.bulkNext, Py.popOrStop]
+  | some x :: rest, script => by
+    obtain ⟨h1, h2⟩ := bulkiter_serves_buffer rest script
+    have step : ∀ n, Py.bulkRun (n + 1) ⟨some x :: rest⟩ script = Py.IterOut.item x :: Py.bulkRun n ⟨rest⟩ script := by
+      intro n
+      simp [Py.bulkRun, Py.bulkNext, Py.popOrStop]
+    rw [drain_some]
+    constructor
+    · simp only [List.length_cons, List.map_cons]
+      rw [step, h1]
+    · intro hs
+      simp only [List.length_cons, List.map_cons, List.cons_append]
+      rw [step, h2 hs]
+
+/-- **C06.bulkiter_refill**: with an empty buffer `next()` makes exactly one socket call; a timeout of that call
+is `TimeoutError`, never a silent end of the walk; the end of the view (`StopAsyncIteration` from the socket or an
+empty list) ends it -/
+theorem bulkiter_refill (script : List PyOut) :
+    Py.bulkNext ⟨[]⟩ (.raise .BlockingIOError :: script) = (.raise .TimeoutError, ⟨[]⟩, script) ∧
+    Py.bulkNext ⟨[]⟩ (.raise .StopAsyncIteration :: script) = (.stop, ⟨[]⟩, script) ∧
+    Py.bulkNext ⟨[]⟩ (.value (.list []) :: script) = (.stop, ⟨[]⟩, script) ∧
+    (∀ x rest, Py.bulkNext ⟨[]⟩ (.value (.list (some x :: rest)) :: script) = (.item x, ⟨rest⟩, script)) :=
+  ⟨rfl, rfl, rfl, fun _ _ => rfl⟩
+
+/-- **C06.nextiter_table**: the sync `GetNextIter.__next__` hands through what the socket step produced; it only
+renames the end of the walk (`StopAsyncIteration` → `StopIteration`) and the socket timeout (`BlockingIOError` →
+`TimeoutError`): a timeout is never turned into the end of the walk, and the end of the walk never into an error;
+the async iterator renames nothing -/
+theorem nextiter_table :
+    Py.syncNextMap (.raise .BlockingIOError) = .raise .TimeoutError ∧
+    Py.syncNextMap (.raise .StopAsyncIteration) = .raise .StopIteration ∧
+    (∀ v, Py.syncNextMap (.value v) = .value v) ∧
+    (∀ e, e ≠ .BlockingIOError → e ≠ .StopAsyncIteration → Py.syncNextMap (.raise e) = .raise e) ∧
+    (∀ r, Py.asyncNextMap r = r) := by
+  refine ⟨rfl, rfl, fun _ => rfl, ?_, fun _ => rfl⟩
+  intro e h1 h2
+  cases e <;> simp_all [Py.syncNextMap]
+
 /-- a Report or a request PDU never yields anything -/
 theorem report_yields_nothing (it : GetIter) (body : Bytes) (ps : List Pdu) :
     (walkNext it (.report body :: ps)).yields = [] ∧ (walkBulk it (.report body :: ps)).yields = [] := by
